@@ -80,6 +80,11 @@ Fixpoint set_insert (x : bytes) (l : list bytes) : list bytes :=
 Definition set_of (l : list bytes) : list bytes := fold_left (fun acc x => set_insert x acc) l [].
 Definition set_mem (x : bytes) (l : list bytes) : bool := existsb (beq x) l.
 
+(* `-l KIND=NAME`: the kinds whose archive is looked up and hashed: `static`, and `static:` followed by modifiers
+   (`static:+whole-archive`, `static:-bundle`, ...; since the fix of finding C05-S24) *)
+Definition is_static_kind (kind : bytes) : bool :=
+  bytes_eqb kind (bs "static") || starts_with (bs "static:") kind.
+
 (* ---------- parsed values ---------- *)
 
 Inductive argval : Type :=
@@ -379,7 +384,7 @@ Definition handle (cwd : bytes) (s : pstate) (arg : argument) : step_result :=
   | Some (f, TooHardFlag, _) | Some (f, TooHardPath, _) => SStop (PRCannotCache f [])
   | Some (_, NotCompilationFlag, _) | Some (_, NotCompilation, _) => SStop PRNotCompilation
   | Some (_, LinkLibrary, VKind kind name) =>
-      SCont (if beq kind (bs "static")
+      SCont (if is_static_kind kind
              then {| ps_args := ps_args s; ps_emit := ps_emit s; ps_input := ps_input s;
                      ps_output_dir := ps_output_dir s; ps_crate_name := ps_crate_name s; ps_rlib := ps_rlib s;
                      ps_staticlib := ps_staticlib s; ps_extra_filename := ps_extra_filename s;
@@ -720,3 +725,31 @@ Definition arg_acceptable (a : argument) : bool :=
          end
   | _ => true
   end.
+
+(* ---------- which static library file is hashed, against rustc's search order ---------- *)
+
+Definition is_native_kind (kind : bytes) : bool := beq kind (bs "native") || beq kind (bs "all").
+
+(* the directories `-l static=` libraries are searched in, contributed by one argument (command-line order) *)
+Definition native_dirs_of (cwd : bytes) (a : argument) : list bytes :=
+  match a with
+  | AWithValue _ LinkPath (VKind kind path) _ => if is_native_kind kind then [path_join cwd path] else []
+  | _ => []
+  end.
+
+(* the library names looked up, contributed by one argument: the kinds `static` and `static:<modifiers>` *)
+Definition static_names_of (a : argument) : list bytes :=
+  match a with
+  | AWithValue _ LinkLibrary (VKind kind name) _ => if is_static_kind kind then [name] else []
+  | _ => []
+  end.
+
+(* NAMED ASSUMPTION about rustc (find_native_static_library on a unix target, observed with rustc 1.95): the
+   archive bundled for `-l static=NAME` is lib<NAME>.a from the FIRST directory, in command-line order, among the
+   `-L native=DIR`, `-L all=DIR` and `-L DIR` directories that contains it *)
+Definition rustc_static_pick (exists_ : bytes -> bool) (dirs : list bytes) (name : bytes) : option bytes :=
+  find exists_ (map (fun d => path_join d (bs "lib" ++ name ++ bs ".a")) dirs).
+
+(* no directory holds <NAME>.lib or <NAME>.a, the two spellings the code also accepts (finding C05-S23 otherwise) *)
+Definition alt_spelling_free (exists_ : bytes -> bool) (dirs : list bytes) (name : bytes) : bool :=
+  forallb (fun d => negb (exists_ (path_join d (name ++ bs ".lib"))) && negb (exists_ (path_join d (name ++ bs ".a")))) dirs.
